@@ -60,7 +60,7 @@ func main() {
 	runner.Main(runner.Config{
 		ID:    "C13",
 		Level: "model_checking",
-		Rule: "message sequences over the body-length alphabet {0,2,127,128,16383,16384,32767,32768,32769,65536,65537,1MiB+1,4MiB+1} (1 is not a possible protobuf length): F-none = every sequence of length <=3 over the full alphabet plus every non-decreasing and non-increasing sequence of length 4, uncompressed; F-comp = every sequence of length <=2 (quick) / <=3 (thorough) over the 11 sizes <=65537 plus monotone sequences of length 3 (quick) / 4 (thorough) x {none, gzip 1,6,9, brotli 0,1,5,9} (thorough: every registered setting, gzip 1-9, brotli 0-9) x {incompressible, text} bodies; F-huge = sequences with one or two >=1MiB messages in first/middle/last position (sizes 1MiB+1, 4MiB+1, 4MiB+64KiB+9, 6MiB+3, 9MiB+1) x the same settings; F-long = a 20-message 5.6MiB stream and 600-message streams cycling over small sizes x settings x {incompressible, text, zero}. Each stream x save plan in {none, before message k for every k in 0..n, before every message, before every message with the checkpoint collected only every 2nd (F-long: also 5th) message} (F-long: none, every, delayed collection, three positions). Written by wire.WriteContext + pwr.CompressWire, cross-checked with independent framing + stdlib gzip; read by a new seek source + ReadContext + pwr.DecompressWire; every checkpoint popped at a message boundary is gob-encoded/decoded and resumed on a brand-new stack, both directly and after the new reader already read two messages (as patcher.New does); with Gen2 the resumed readers ask for saves as well and their checkpoints are resumed too. Non-trivial = at least one checkpoint was popped with messages left to read and resumed.",
+		Rule:  "message sequences over the body-length alphabet {0,2,127,128,16383,16384,32767,32768,32769,65536,65537,1MiB+1,4MiB+1} (1 is not a possible protobuf length): F-none = every sequence of length <=3 over the full alphabet plus every non-decreasing and non-increasing sequence of length 4, uncompressed; F-comp = every sequence of length <=2 (quick) / <=3 (thorough) over the 11 sizes <=65537 plus monotone sequences of length 3 (quick) / 4 (thorough) x {none, gzip 1,6,9, brotli 0,1,5,9} (thorough: every registered setting, gzip 1-9, brotli 0-9) x {incompressible, text} bodies; F-huge = sequences with one or two >=1MiB messages in first/middle/last position (sizes 1MiB+1, 4MiB+1, 4MiB+64KiB+9, 6MiB+3, 9MiB+1) x the same settings; F-long = a 20-message 5.6MiB stream and 600-message streams cycling over small sizes x settings x {incompressible, text, zero}. Each stream x save plan in {none, before message k for every k in 0..n, before every message, before every message with the checkpoint collected only every 2nd (F-long: also 5th) message} (F-long: none, every, delayed collection, three positions). Written by wire.WriteContext + pwr.CompressWire, cross-checked with independent framing + stdlib gzip; read by a new seek source + ReadContext + pwr.DecompressWire; every checkpoint popped at a message boundary is gob-encoded/decoded and resumed on a brand-new stack, both directly and after the new reader already read two messages (as patcher.New does); with Gen2 the resumed readers ask for saves as well and their checkpoints are resumed too. Non-trivial = at least one checkpoint was popped with messages left to read and resumed.",
 		Assumptions: []string{
 			"message bodies are pwr.SyncOp values of the exact encoded length; content is seeded pseudo-random, dictionary text or zeros (VERIF_SEED)",
 			"no checkpoint count is asserted: decompressing sources decide when they can save (brotli offers one or two per several MiB at quality >=5)",
